@@ -23,7 +23,7 @@ from __future__ import annotations
 import re
 
 from . import AnalysisError
-from .symval import SymRaise, Closure, BoundMethod, Builtin, GenVal
+from .symval import SymRaise, SymObj, Closure, BoundMethod, Builtin, GenVal
 
 WS = " \t\n\r"
 _NODEFAULT = object()
@@ -309,9 +309,14 @@ class Grammar:
     def _call(self, fn, s, loc, toks):
         nargs = 3
         node = fn.node if isinstance(fn, Closure) else fn.fn.node if isinstance(fn, BoundMethod) and isinstance(fn.fn, Closure) else None
+        bound = isinstance(fn, BoundMethod)
+        if node is None and isinstance(fn, SymObj) and fn.cls is not None:
+            m = fn.cls.lookup("__call__")          # an instance of a class with __call__ used as a parse action
+            if isinstance(m, Closure):
+                node, bound = m.node, True
         if node is not None:
             a = node.args
-            nargs = len(a.posonlyargs) + len(a.args) - (1 if isinstance(fn, BoundMethod) else 0)
+            nargs = len(a.posonlyargs) + len(a.args) - (1 if bound else 0)
             if a.vararg:
                 nargs = 3
         args = [s, loc, toks][3 - nargs:] if nargs <= 3 else [s, loc, toks]
